@@ -69,6 +69,12 @@ func (node *tagMacroNode) call(ctx *ExecutionContext, args ...*Value) (*Value, e
 	// Make a context for the macro execution
 	macroCtx := NewChildExecutionContext(ctx)
 
+	// The macro can call itself by its own name, also when it was imported under
+	// another one (parameters of the same name come later and win)
+	macroCtx.Private[node.name] = func(args ...*Value) (*Value, error) {
+		return node.call(ctx, args...)
+	}
+
 	// Register all arguments in the private context
 	macroCtx.Private.Update(argsCtx)
 
